@@ -18,8 +18,9 @@ PARENT = '/svc'
 
 
 def member_data(name):
-  i = int(name.split('_')[-1])
-  return json.dumps({'serviceEndpoint': {'host': 'host-%s' % name, 'port': 7000 + i}, 'additionalEndpoints': {},
+  # member_1N is the same service instance as member_N after a restart: a new node carrying the same data
+  i = int(name.split('_')[-1]) % 10
+  return json.dumps({'serviceEndpoint': {'host': 'host-member_%d' % i, 'port': 7000 + i}, 'additionalEndpoints': {},
                      'status': 'ALIVE'}).encode('utf-8')
 
 
@@ -165,6 +166,7 @@ class ZWorld(object):
     self.viol = []
     self.log = []             # ('join'|'leave', name) in delivery order
     self.view = {}            # consumer's view: name -> count
+    self.vals = set()         # a consumer that identifies members by value (Member equality: endpoint, status, shard), as the balancers do
     self.script = [list(x) for x in params['script']]
     self.raise_on = set(params.get('raise_on', ()))
     self.ncb = 0
@@ -187,6 +189,10 @@ class ZWorld(object):
     self.ncb += 1
     name = member.name
     self.log.append((kind, name))
+    if kind == 'join':
+      self.vals.add(member)
+    else:
+      self.vals.discard(member)
     prev = [k for (k, n) in self.log[:-1] if n == name]
     if prev and prev[-1] == kind:
       self.v('C19.repeated', '%s reported for %s twice in a row; callback log %r' % (kind, name, self.log), kind=kind)
@@ -260,6 +266,12 @@ class ZWorld(object):
     if holding != present:
       self.v('C19.view', 'after all events were delivered the consumer holds %r but the members present are %r; callback log %r'
              % (holding, present, self.log), missing=sorted(set(present) - set(holding)), extra=sorted(set(holding) - set(present)))
+    from scales.loadbalancer.zookeeper import Member
+    present_vals = set(Member.from_node(n, self.zk.tree[PARENT + '/' + n][0]) for n in present)
+    if holding == present and self.vals != present_vals:
+      self.v('C19.view-by-value', 'after all events were delivered a consumer that identifies members by value holds endpoints %r but the '
+             'members present have endpoints %r; callback log %r'
+             % (sorted(str(m.service_endpoint) for m in self.vals), sorted(str(m.service_endpoint) for m in present_vals), self.log))
     if self.zk.cb_errors:
       self.v('C19.exception-escaped', 'an exception escaped into the watch machinery: %s' % self.zk.cb_errors[0])
     errs = [e for e in self.lp.errors if 'GreenletExit' not in e[1]]
@@ -303,6 +315,7 @@ def run_exec(params, prefix, expect):
 
 
 M0, M1, M2 = 'member_0', 'member_1', 'member_2'
+M10 = 'member_10'
 
 
 def scenarios(tier):
@@ -322,6 +335,8 @@ def scenarios(tier):
      {'script': [['create', M0], ['delete', M0], ['delete_parent'], ['create_parent'], ['create', M0]], '_bound': 4}),
     ('a member is deleted while a second reader is between listing and reading it',
      {'initial': [M0, M1], 'script': [['read'], ['delete', M0], ['create', M2], ['read'], ['delete', M1]]}),
+    ('a member restarts: its node is deleted and a new node with the same data appears',
+     {'initial': [M0, M1], 'script': [['delete', M0], ['create', M10], ['delete', M1], ['create', M2]]}),
     ('second reader lists members concurrently', {'initial': [M0], 'script': [['read'], ['create', M1], ['delete', M0], ['read'], ['create', M0]]}),
   ]
   if tier == 'thorough':
@@ -344,7 +359,8 @@ def main(tier, seed):
     pool.join()
   rep.assumptions += ['kazoo below get/exists/get_children and session loss / reconnect are not modelled',
                       'server->client channel is FIFO (ZooKeeper ordering); watch callbacks run sequentially on one greenlet',
-                      'member data is a function of the member name']
+                      'member data is a function of the member name; member_10 carries the same data as member_0 (a restarted instance) and the '
+                      'two are never present together']
   return rep.finish(
     rule='stateless exploration (<= d deviations) of the real ServerSet on the real kazoo watch recipes over an in-memory ZooKeeper: '
          'default = the server handles every read and every channel item is delivered before the next tree mutation; deviation = a '
